@@ -24,6 +24,7 @@ Init == InitWith(Cfg, Pre)
 Next == NextWith(Steps)
 Spec == Init /\ [][Next]_vars
 Depth == 5
+DepthT == 6
 Constraint == Len(hist) <= Len(Pre) + Depth
 ASSUME PrintT(<<"CFG", ToJson(CfgJson(Cfg))>>)
 =============================================================================
